@@ -259,6 +259,8 @@ type Evaluator struct {
 	rootPkg *ssa.Package
 	// seamVals: values the seam table supplied (their receivers are bound by static type)
 	seamVals map[*T]bool
+	// initCells: per package, the heap its initialiser leaves (globals.go)
+	initCells map[*ssa.Package]map[*T]*T
 }
 
 // protocolNames: functions whose calls are events of the rules' specifications; the same-package inlining
@@ -507,6 +509,9 @@ func (ev *Evaluator) load(st *State, addr *T, typ types.Type) *T {
 			args[i] = ev.load(st, ev.faddr(addr, typ, i), s.Field(i).Type())
 		}
 		return ev.TS.intern(&T{Op: "struct", Aux: types.TypeString(typ, func(*types.Package) string { return "" }), Args: args, Typ: typ})
+	}
+	if gv := ev.constGlobalLoad(addr); gv != nil {
+		return gv
 	}
 	if isFreshRoot(addr) {
 		return ev.TS.zeroOf(typ)
